@@ -239,7 +239,7 @@ def instance_evaluate():
       }),
       r is Ok ==> r->Ok_0.1@ == inst_used_ids(*self),''',
                 subs=[('if let HashMapEntry::Vacant(e) = state.entries.entry(v.id) {', 'if !state.entries.contains_key(&v.id) {'),
-                      ('let bound: crate::Bound = v.try_into()?;', 'let bound: Bound = Bound::try_from_dv(v)?;'),
+                      ('let bound: Bound = v.try_into()?;', 'let bound: Bound = Bound::try_from_dv(v)?;'),
                       ('e.insert(', 'state.entries.insert(v.id, '),
                       ('Optimality::Unspecified.into()', 'optimality_as_i32(Optimality::Unspecified)'),
                       ('Relaxation::Unspecified.into()', 'relaxation_as_i32(Relaxation::Unspecified)')],
